@@ -142,7 +142,9 @@ def api_doc(rng, strings):
                 kids.append(run)
         body.append(X("w:p", {}, kids))
     pkg.body = body
-    sm = "p.S1 => p[data-x=%s].%s:fresh\nr.R1 => span[title=%s]" % (gen_styles.esc_string(S()), "cls", gen_styles.esc_string(S()))
+    # (the element names are the style map's, whatever HTML makes of them: script, style, textarea, title, xmp are elements like any other)
+    ptag, rtag = rng.choice(["p", "p", "style", "script", "textarea", "title", "pre", "xmp"]), rng.choice(["span", "span", "script", "code", "style", "plaintext"])
+    sm = "p.S1 => %s[data-x=%s].%s:fresh\nr.R1 => %s[title=%s]" % (ptag, gen_styles.esc_string(S()), "cls", rtag, gen_styles.esc_string(S()))
     return pkg, S(), sm, (S(), S())
 
 
